@@ -48,6 +48,7 @@ Proof.
   - exact Qcle_trans.
   - exact Qcle_antisym.
   - exact Qc_le_total.
+  - exact Qc_eq_dec.
   - exact Qc_fle_add.
   - exact Qc_fle_mul.
   - exact Qc_ltb_spec.
